@@ -1282,14 +1282,21 @@ func (s *compoundState) txLockInitial(args *nfsv4.Lock4args, openStateID nfs40Re
 		confirmedClient.lockOwners[lockOwnerKey] = los
 		initialTransaction = true
 	} else {
-		if _, ok := oofs.lockOwnerFiles[los]; ok {
-			// Lock-owner has already been associated with
-			// this file. We should have gone through
-			// txLockSuccessive() instead.
-			//
-			// More details: RFC 7530, section 16.10.5,
-			// bullet point 2.
-			return &nfsv4.Lock4res_default{Status: nfsv4.NFS4ERR_BAD_SEQID}
+		for _, lofs := range los.files {
+			if lofs.openOwnerFile.openedFile == oofs.openedFile {
+				// Lock-owner has already been associated
+				// with this file, either through this
+				// open-owner or another one of the same
+				// client. We should have gone through
+				// txLockSuccessive() instead. Byte-range
+				// locks are owned by the lock-owner, so
+				// there may only be a single lock-owner
+				// file that accounts for them.
+				//
+				// More details: RFC 7530, section 16.10.5,
+				// bullet point 2.
+				return &nfsv4.Lock4res_default{Status: nfsv4.NFS4ERR_BAD_SEQID}
+			}
 		}
 	}
 
